@@ -9,7 +9,9 @@ P="${3:-$(python3 -c "import json;print(json.load(open('seeded/$ID/meta.json'))[
 W="/tmp/mutwt.$ID.$$"
 git -C /repo worktree add --detach "$W" HEAD >/dev/null 2>&1 || { echo "worktree failed"; exit 2; }
 trap 'git -C /repo worktree remove --force "$W" >/dev/null 2>&1' EXIT
-git -C "$W" apply "/verif/seeded/$ID/patch.diff" || { echo "$ID: patch does not apply to current /repo HEAD"; exit 3; }
+PATCH="/verif/seeded/$ID/patch.diff"
+[ -f "/verif/seeded/$ID/patch-rebased.diff" ] && PATCH="/verif/seeded/$ID/patch-rebased.diff"   # same change, re-based after /repo fix commits
+git -C "$W" apply "$PATCH" || { echo "$ID: patch does not apply to current /repo HEAD"; exit 3; }
 mkdir -p out
 PICOSVG_SRC="$W/src" VERIF_EVIDENCE_DIR="/verif/out/evidence-mut" ./check "$P" "$TIER" > "out/mut-$ID-$P.log" 2>&1; rc=$?
 v=$(grep -c '^VIOLATION' "out/mut-$ID-$P.log")
